@@ -265,7 +265,7 @@ def ALine.render (x : ALine) : List Char :=
     ("P#".toList ++ (x.p ++ x.tail)))))))))
 
 theorem blank_free {ws : List Char} (h : Blank ws) : ∀ c ∈ ws, c ≠ ':' := by
-  intro c hc; rcases h.2 c hc with rfl | rfl <;> decide
+  intro c hc; exact (space_props c (h.2 c hc)).2.2.2.1
 
 theorem free_append {A B : List Char} (hA : ∀ c ∈ A, c ≠ ':') (hB : ∀ c ∈ B, c ≠ ':') :
     ∀ c ∈ A ++ B, c ≠ ':' := by
